@@ -264,11 +264,12 @@ impl Canon for Spread {
     }
 }
 
-/// Fields named with raw identifiers, with and without `#[zlink(rename)]`.
+/// Fields named with raw identifiers, with and without `#[zlink(rename)]`; variants written as raw
+/// identifiers (`r#Typed` and `Typed` are the same identifier to rustc, a proc macro sees "r#Typed").
 #[derive(Debug, ReplyError)]
 #[zlink(interface = "org.example.Raw", crate = "zlink_core")]
 enum Raw<'a> {
-    Typed {
+    r#Typed {
         r#type: String,
         count: u32,
     },
@@ -277,7 +278,7 @@ enum Raw<'a> {
         r#match: i32,
         r#ref: Option<&'a str>,
     },
-    Loop,
+    r#Loop,
     Renamed {
         #[zlink(rename = "in")]
         r#in: bool,
